@@ -185,7 +185,17 @@ func propC07(c *Ctx) {
 			case emitSide(o.Desc) || emitSide(o.Goal.String()):
 				nEmit++
 			default:
-				if why, ok := assumed[key]; ok {
+				why, ok := assumed[key]
+				if !ok && isNewFunc(fn) {
+					// code moved into a helper after the review keeps the reason it had in its owner (inline.go)
+					for _, owner := range c.Owners(fn) {
+						k2 := owner + "/" + o.Kind + ":" + o.Desc
+						if w2, ok2 := assumed[k2]; ok2 {
+							why, ok, key = w2, true, k2
+						}
+					}
+				}
+				if ok {
 					usedAssumed[key] = true
 					c.Assume(p2, key, c.pos(o.Instr), why)
 				} else if gen {
